@@ -61,7 +61,7 @@ def print_json(targets, graph):
             ]
         )
 
-    print(json.dumps(obj, indent=4))
+    print(json.dumps(obj, indent=4, default=str))
 
 
 FORMATS = {
